@@ -113,10 +113,12 @@ CLAIMED = {
     'C13': dict(
         text='Machine-checked: an item delivered to a consumer is executed at most once and acknowledged at most once, only after processing (per-item protocol); a consumer parked with '
              'items pending below its limit has a notification buffered or on its way, so at rest the shared queue is drained (wake-up protocol, with start()\'s unconditional notify covering '
-             'items present before the bind). Lock-step replay of per-item and (single-consumer) wake-up projections; with 1..3 consumers on one recording adapter the monitors check '
-             'exactly-one execution, drain at rest and Submitted = notifications delivered.',
-        note='The shared adapter is a specification object. Multi-consumer drain is monitored, not modelled. Trusted: Coq kernel, extraction, rewriter + shim runtime, projection, harness.',
-        technique='Coq invariants (per-item protocol, wake-up protocol) + lock-step trace validation + multi-consumer monitors', ref='5 C13'),
+             'items present before the bind). Lock-step replay of per-item projections and of one wake-up projection PER CONSUMER of the shared adapter (its pending count is each consumer\'s; an '
+             'accepted item is a foreign enqueue with one notification owed to every subscribed consumer; a consumer counts the adapter from its Register and is owed notifications from its '
+             'Subscribe); with 1..3 consumers on one recording adapter the monitors check exactly-one execution, drain at rest and Submitted = notifications delivered; a directed schedule places '
+             'an item between a consumer\'s start() and its Subscribe.',
+        note='The shared adapter is a specification object. The consumers are not composed in one model: each is replayed against the shared pending count. Trusted: Coq kernel, extraction, rewriter + shim runtime, projection, harness.',
+        technique='Coq invariants (per-item protocol, wake-up protocol) + lock-step trace validation per consumer + multi-consumer monitors', ref='5 C13'),
     'C14': dict(
         text='Machine-checked: the status logic of every lifecycle call, as coded, returns the documented error and leaves the documented status '
              '(Initiated; Running <-> Paused; Stopped; Restart back to Running; Bind starts a fresh worker and otherwise changes nothing; a cancelled '
